@@ -47,7 +47,7 @@
 //
 //	x := e, var x T, var x = e, var ( … )     let x : T := e      (zero value 0 / false / "")
 //	x = e, x += e, x -= e, x *= e, x++, x--   shadowing let
-//	if c { A } else { B }  (no init)           when neither branch returns:
+//	if c { A } else { B }                      (`if init; c {…}` = `{ init; if c {…} }`) when neither branch returns:
 //	                                             let (vars assigned in A or B) := if c then … else …
 //	                                           otherwise: if c then ⟦A; rest⟧ else ⟦B; rest⟧
 //	switch { case c: … } / switch t { case v, w: … default: … }   (no init, no fallthrough,
@@ -1159,7 +1159,9 @@ func (t *tr) declare(n ast.Node, name string, sc scope) {
 
 // assignable checks the type of a value against the declared type of a variable.
 func assignable(vt, want ty) bool {
-	return vt == want || want == tDur && vt == tInt
+	// a constant of the package is typed Int here whatever its Go type (no type checker): a variable
+	// initialised from one may later hold a Duration; both are Int on the Lean side
+	return vt == want || vt.numeric() && want.numeric()
 }
 
 // block translates a statement list; k produces the code for what follows the block.
@@ -1335,7 +1337,14 @@ func (t *tr) assign(s *ast.AssignStmt, rest []ast.Stmt, sc scope, k func(scope) 
 
 func (t *tr) ifStmt(s *ast.IfStmt, sc scope, next func(scope) lx) lx {
 	if s.Init != nil {
-		t.fail(s, "if statement with an init clause")
+		// `if init; c { A } else { B }` is `{ init; if c { A } else { B } }` (Go spec: the init
+		// statement's scope is the if statement, else branches included)
+		if _, ok := s.Init.(*ast.AssignStmt); !ok {
+			t.fail(s, "if statement with an init clause that is not an assignment / short declaration")
+		}
+		plain := *s
+		plain.Init = nil
+		return t.block([]ast.Stmt{&ast.BlockStmt{Lbrace: s.Pos(), List: []ast.Stmt{s.Init, &plain}, Rbrace: s.End()}}, sc, next)
 	}
 	cond := strip(t.cond(s.Cond, sc))
 	var els []ast.Stmt
@@ -2249,6 +2258,23 @@ func genTrans(repo, outDir string) error {
 		}
 		facts["TransC06.Advertiser_schedule_mc"] = strings.Join(all, "\n")
 		facts["TransC06.Advertiser_schedule_mc.go"] = src
+	}
+	// the lifetime computed by NewPREF64 (translate_synth.go)
+	curTag = "TransC01"
+	if p, err := loadPkg(repo, "internal/plugin"); err != nil {
+		failf("translate: NewPREF64: %v", err)
+	} else if defs, src, err := translatePREF64(p); err != nil {
+		failf("%s", err)
+		sb.WriteString("-- NOT TRANSLATED: " + docSafe(err.Error()) + "\n\n")
+		facts["TransC01.NewPREF64_lifetime"] = "NOT TRANSLATED: " + err.Error()
+	} else {
+		var all []string
+		for _, d := range defs {
+			sb.WriteString(d.text + "\n\n")
+			all = append(all, d.text)
+		}
+		facts["TransC01.NewPREF64_lifetime"] = strings.Join(all, "\n")
+		facts["TransC01.NewPREF64_lifetime.go"] = src
 	}
 	sb.WriteString("end Corerad.Gen.Trans\n")
 	p := filepath.Join(outDir, "Trans.lean")
